@@ -520,8 +520,13 @@ def discharge_path(res, fn, params, opts, stats):
 
     if res.status == 'inconclusive':
         stats['inconclusive'].append(dict(path=cx.trace, reason=res.reason))
-        stats['records'].append(rec)
-        return
+        # goals registered before the engine had to give up are still assertions about this path: discharge them
+        h = cx.meta.get('h')
+        if h is None or not h.goals:
+            stats['records'].append(rec)
+            return
+        rec['partial'] = True
+        conc = None
     if res.status == 'exception':
         e = res.exc
         rec['exception'] = f"{type(e).__name__}: {e}"
@@ -759,6 +764,7 @@ def run_instance(fn, params, opts=None):
     def body(cx):
         from . import stubs
         h = SymH(cx, opts)
+        cx.meta['h'] = h
         stubs.reset()
         try:
             fn(h, **params)
